@@ -52,11 +52,22 @@ def denote : OpExpr → Mat
   | transpose e => e.denote.transpose
   | leftDot m e => m.mul e.denote
   | rightDot e m => e.denote.mul m
-  | astype e => e.denote
+  | astype e _ => e.denote      -- the cast keeps the values (`IntCastsExact` for `int`; float32 rounding is outside)
+  | rmul c e => e.denote.smul c
   | d2u e => e.denote.add e.denote.transpose
   | b2d e => Mat.block e.denote (Mat.zero e.denote.nCol e.denote.nRow)
   | b2u e => Mat.block e.denote e.denote.transpose
   | normalize e => rowNormalized e.denote
+
+/-- every `astype(int)` of the expression is applied to an operator whose stored parts are integers, so that the
+cast (truncation of the stored parts, which is what the code does) keeps the denoted matrix -/
+def IntCastsExact : OpExpr → Prop
+  | astype e .int => e.IntCastsExact ∧ ∀ o, e.eval = .ok o → o.astype .int = .ok o
+  | astype e _ => e.IntCastsExact
+  | neg e | addCsr e _ | subCsr e _ | mul e _ | transpose e | leftDot _ e | rightDot e _ | rmul _ e
+  | d2u e | b2d e | b2u e | normalize e => e.IntCastsExact
+  | add e f | sub e f => e.IntCastsExact ∧ f.IntCastsExact
+  | _ => True
 
 end OpExpr
 
@@ -81,7 +92,6 @@ def Kind.scaled : Kind → Kind
 def Ty.add (t u : Ty) : Except PyErr Ty :=
   match t.kind, u.kind with
   | .slr, .slr => if t.nRow = u.nRow ∧ t.nCol = u.nCol then .ok t else .error .valueError
-  | .slr, _ => .error .attributeError
   | _, _ => if t.nRow = u.nRow ∧ t.nCol = u.nCol then .ok ⟨.gen, t.nRow, t.nCol⟩ else .error .valueError
 
 namespace OpExpr
@@ -93,8 +103,10 @@ def type? : OpExpr → Except PyErr Ty
     if ts.all (fun t => t.1.length == s.nRow && t.2.length == s.nCol) then .ok ⟨.slr, s.nRow, s.nCol⟩
     else .error .valueError
   | regularizer a _ => .ok ⟨.slr, a.nRow, a.nCol⟩
-  | normalizer a _ => .ok ⟨.nrm false, a.nRow, a.nCol⟩
-  | laplacian a _ _ _ => if a.nRow ≠ a.nCol then .error .valueError else .ok ⟨.lap, a.nRow, a.nRow⟩
+  | normalizer a _ => if a.nCol = 0 then .error .unsupported else .ok ⟨.nrm false, a.nRow, a.nCol⟩
+  | laplacian a _ _ _ =>
+    if a.nRow = 0 ∧ a.nCol = 0 then .error .unsupported
+    else if a.nRow ≠ a.nCol then .error .valueError else .ok ⟨.lap, a.nRow, a.nRow⟩
   | coneighbor a _ => if a.isNull then .error .valueError else .ok ⟨.con, a.nRow, a.nRow⟩
   | polynome a cs =>
     if cs.isEmpty then .error .valueError
@@ -129,7 +141,7 @@ def type? : OpExpr → Except PyErr Ty
     | .lap => pure t
     | .con => pure ⟨.con, t.nCol, t.nRow⟩
     | .pol => pure t
-    | .gen => .error .unsupported
+    | .gen => pure ⟨.gen, t.nCol, t.nRow⟩
   | leftDot m e => do
     let t ← e.type?
     match t.kind with
@@ -142,11 +154,12 @@ def type? : OpExpr → Except PyErr Ty
     | .slr => if t.nCol = m.nRow then pure ⟨.slr, t.nRow, m.nCol⟩ else .error .valueError
     | .con => if t.nCol = m.nRow then pure ⟨.con, t.nRow, m.nCol⟩ else .error .valueError
     | _ => .error .attributeError
-  | astype e => do
+  | astype e _ => do
     let t ← e.type?
     match t.kind with
     | .slr | .lap | .con => pure t
     | _ => .error .attributeError
+  | rmul _ e => do let t ← e.type?; pure ⟨.gen, t.nRow, t.nCol⟩
   | d2u e => do
     let t ← e.type?
     match t.kind with
@@ -189,10 +202,10 @@ def classMethods : String → Option (String × List String)
       "_transpose", "astype", "left_sparse_dot", "right_sparse_dot", "sum"])
   | "Regularizer" => some ("SparseLR", [])
   | "Normalizer" => some ("LinearOperator", ["_matvec", "_rmatvec"])
-  | "Laplacian" => some ("LinearOperator", ["_matvec", "_transpose", "astype"])
-  | "CoNeighbor" => some ("LinearOperator", ["__mul__", "__neg__", "_matvec", "_transpose", "astype",
+  | "Laplacian" => some ("LinearOperator", ["_adjoint", "_matvec", "_transpose", "astype"])
+  | "CoNeighbor" => some ("LinearOperator", ["__mul__", "__neg__", "_adjoint", "_matvec", "_transpose", "astype",
       "left_sparse_dot", "right_sparse_dot"])
-  | "Polynome" => some ("LinearOperator", ["__mul__", "__neg__", "_matvec", "_transpose"])
+  | "Polynome" => some ("LinearOperator", ["__mul__", "__neg__", "_adjoint", "_matvec", "_transpose"])
   | _ => none
 
 /-! ### comparison within the tolerance of DESIGN §8 -/
